@@ -444,3 +444,9 @@ func lastAccessorParam(fn *ssa.Function) (int, bool) {
 
 // LastAccessorParam is the exported form of lastAccessorParam.
 func LastAccessorParam(fn *ssa.Function) (int, bool) { return lastAccessorParam(fn) }
+
+// EmptyEdges returns the CFG edges taken only when len(x) == 0 (the other edge of every test NonEmptyEdges knows).
+func EmptyEdges(fn *ssa.Function, x ssa.Value) EdgeSet {
+	_, e := emptyEdges(fn, x)
+	return e
+}
